@@ -21,6 +21,7 @@ _real_allocate = _thread.allocate_lock
 _tls = threading.local()
 
 TIMEOUT = 'TIMEOUT'          # value returned by point() when the deadline won
+PY_POINTS = ('task', 'line', 'start', 'in-cs')   # points inside Python code
 WATCHDOG_S = 60.0            # real seconds a vthread may run between points
 
 
@@ -254,17 +255,27 @@ class Scheduler:
                 raise ProcessKilled()
             w, vt.wake = vt.wake, None
             if vt.intr:
-                # a signal handler runs here, inside the interrupted call;
-                # it may raise (the call is abandoned) or return (PEP 475:
-                # the call is retried)
-                vt.intr = False
-                if self.intr_handler is not None:
-                    self.intr_handler(vt)
-                if w is not TIMEOUT and enabled is not None and not enabled():
-                    continue
-                if w is not TIMEOUT and enabled is None and \
-                        deadline is not None and self.now < deadline:
-                    continue
+                # Python-level signal handlers run between bytecodes or when
+                # a *blocking* call is interrupted -- never in the middle of
+                # a call that completes at once (a release, a try-acquire, a
+                # read with data waiting).  So: pure-Python points and calls
+                # that would block run the handler here (it may raise: the
+                # call is abandoned; or return: PEP 475, the call is
+                # retried); any other operation proceeds and the signal
+                # stays pending until the next such point.
+                blocked = (w is not TIMEOUT and (
+                    (enabled is not None and not enabled()) or
+                    (enabled is None and deadline is not None and
+                     self.now < deadline)))
+                if blocked or op in PY_POINTS:
+                    vt.intr = False
+                    if self.intr_handler is not None:
+                        self.intr_handler(vt)
+                    if blocked:
+                        if enabled is not None and not enabled():
+                            continue
+                        if enabled is None and self.now < deadline:
+                            continue
             return w
 
     def _thread_done(self, vt):
